@@ -8,9 +8,9 @@ import numpy as np
 from ..common import q2s, run_driver, seed_rng
 from ..qnum import Q, installed
 from ..sllib import TIME_LATTICE, Fixture, random_space_intervals, result_str
-from ..slchecks import RealOps, corr_bilform, describe, random_real_mesh
+from ..slchecks import RealOps, corr_bilform, corr_mpcol, describe, random_real_mesh, with_generated
 
-PROP_MODS = ['Stbem.Props.C04']
+PROP_MODS = ['Stbem.Props.C04', 'Stbem.Props.PanelsTie']
 RULE = ('correspondence (exact, Q numbers with rational stand-in special functions): real bilform on both paths, '
         'evaluate, evaluate_exact and potential against the Lean model for all ordered pairs of time intervals of a '
         'lattice (equal, nested, touching, overlapping, separated, both orders) x space configurations: results must '
@@ -22,13 +22,14 @@ RULE = ('correspondence (exact, Q numbers with rational stand-in special functio
 TRUSTED = [
     'Lean 4.33 kernel; axioms propext, Classical.choice, Quot.sound only',
     'translate/formulas.py (validated on every run by exact execution of the real functions with stand-ins)',
-    'hand-written model lean/Stbem/Model/SingleLayer.lean tied by exact correspondence (harness/sllib.py, qnum.py)',
+    'hand-written model lean/Stbem/Model/SingleLayer.lean tied by exact correspondence (harness/sllib.py, qnum.py) and, for its '
+    'control flow, by Props/PanelsTie.lean to Gen/Panels.lean which translate/panels.py regenerates from the source on every run',
     'positivity in binary64 (cancellation in the four-term formula) is not modelled: search only',
 ]
 ASSUMPTIONS = ['exact arithmetic; special functions are parameters']
 
 
-def translate(res):
+def translate_formulas(res):
     import os, sys
     from ..common import LEAN, VERIF, write_if_changed
     sys.path.insert(0, os.path.join(VERIF, 'translate'))
@@ -36,8 +37,28 @@ def translate(res):
     formulas.generate(os.environ.get('STBEM_REPO', '/repo'), os.path.join(LEAN, 'Stbem', 'Gen'), write_if_changed)
 
 
+def translate_panels(res):
+    """Regenerates lean/Stbem/Gen/Panels.lean (control flow of __integrate, bilform, evaluate, _init_elems,
+    MP_SL_matrix_col, the loop nests of bilform_matrix) from the working tree of the repository under test; a
+    construct the translator does not understand raises (= broken obligation)."""
+    import os, sys
+    from ..common import LEAN, REPO, VERIF, write_if_changed
+    sys.path.insert(0, os.path.join(VERIF, 'translate'))
+    import panels
+    stats = panels.generate(REPO, os.path.join(LEAN, 'Stbem', 'Gen'), write_if_changed)
+    for k in ('branches', 'returns', 'asserts', 'panel_leaves', 'recursive_calls', 'assignments', 'closures', 'float_constants'):
+        res.bump('translated_' + k, stats.get(k, 0))
+    res.count(('translated', 'single_layer.py control flow'), True, n=stats.get('branches', 0) + stats.get('returns', 0))
+
+
+def translate(res):
+    translate_formulas(res)
+    translate_panels(res)
+
+
 def correspond(res, tier):
     corr_bilform(res, tier, 'C04', curves=('unitsquare', 'interval'))
+    corr_mpcol(res, tier, 'C04m')
     # zero structure of the pointwise evaluations, exactly
     rng = seed_rng(res.seed, 'C04e')
     for curve in ('unitsquare', 'interval'):
@@ -65,6 +86,7 @@ def correspond(res, tier):
                                 v = fx.SL.evaluate_exact(e, Q(t), Q(xh))
                                 lines.append('sl evalx %s %s %s' % (e.encode(), q2s(t), q2s(xh)))
                                 expect.append('none' if v is None else result_str(v))
+        with_generated(lines, expect)
         out = run_driver(lines)
         for line, want, got in zip(lines, expect, out):
             res.count(('eval', line), want != '0')
